@@ -51,6 +51,15 @@ func items(n int) string {
 
 const ct = "Content-Type: application/activity+json\r\n"
 
+// nestedFrom: exchanges from this index on are fetches *inside* a document that itself loads fine (an author of a
+// post): a fault there must leave a failure item in that place, and the enclosing item must still be built in time.
+func nestedFrom(name string) int {
+	if name == "note-with-author" {
+		return 1
+	}
+	return -1
+}
+
 func corpus(name string) (input string, chain []exchange) {
 	actor := `{"id":"https://%H0%%P%/actor","type":"Person","name":"Alice","preferredUsername":"alice","summary":"<p>bio</p>","outbox":"https://%H0%%P%/outbox"}`
 	switch name {
@@ -70,6 +79,11 @@ func corpus(name string) (input string, chain []exchange) {
 			{2, "/older", "HTTP/1.1 301 Moved Permanently\r\nLocation: https://%H1%%P%/old\r\n\r\n"},
 			{1, "/old", "HTTP/1.1 302 Found\r\nlocation: /%P%/actor\r\n\r\nsee other"},
 			{1, "/actor", "HTTP/1.1 200 OK\r\n" + ct + "\r\n" + strings.ReplaceAll(actor, "%H0%", "%H1%")}}
+	case "note-with-author":
+		note := `{"id":"https://%H0%%P%/note","type":"Note","content":"<p>hello</p>","attributedTo":"https://%H0%%P%/actor","audience":["https://%H0%%P%/actor"]}`
+		return "https://%H0%%P%/note", []exchange{
+			{0, "/note", "HTTP/1.1 200 OK\r\n" + ct + "\r\n" + note},
+			{0, "/actor", "HTTP/1.1 200 OK\r\n" + ct + "\r\n" + strings.Replace(actor, `,"outbox":"https://%H0%%P%/outbox"`, "", 1)}}
 	case "webfinger":
 		jrd := `{"subject":"acct:alice@%H0%","links":[{"rel":"http://webfinger.net/rel/profile-page","type":"text/html","href":"https://%H0%/@alice"},{"rel":"self","type":"application/activity+json","href":"https://%H0%%P%/actor"}]}`
 		return "@alice%PNUM%@%H0%", []exchange{
@@ -79,7 +93,7 @@ func corpus(name string) (input string, chain []exchange) {
 	panic("harness: unknown corpus " + name)
 }
 
-var corpora = []string{"actor", "actor-trailing-newline", "collection", "redirect1", "redirect2", "webfinger"}
+var corpora = []string{"actor", "actor-trailing-newline", "collection", "redirect1", "redirect2", "webfinger", "note-with-author"}
 
 // fixP inserts the case's path prefix; %PNUM% (its number) makes the webfinger query unique per case,
 // so the process-wide response cache cannot answer for an earlier case.
@@ -159,6 +173,9 @@ func check(c Case) vrep.Result {
 		sim.Set(ex.host, target, r)
 	}
 	in := fixP(input, prefix)
+	if c.Kind == "refused" && nestedFrom(c.Corpus) >= 0 && c.Hop >= nestedFrom(c.Corpus) {
+		return vrep.Result{Classes: append(classes, "skip:refused-nested")} // rewriting the authority would also change the enclosing document's own id
+	}
 	if c.Kind == "refused" {
 		// aim the faulted hop at a port on which nothing listens
 		if c.Hop == 0 {
@@ -205,10 +222,29 @@ func check(c Case) vrep.Result {
 		return vrep.Result{Classes: classes, Err: fmt.Errorf("%s: fetch took %v, more than %v = (hops+1) x 3 x timeout + 1 s", describe(c), elapsed.Round(time.Millisecond), limit)}
 	}
 	_, failed := result.(*pub.Failure)
+	if nf := nestedFrom(c.Corpus); nf >= 0 && c.Hop >= nf {
+		// the faulted fetch is an author inside a post that loads fine: the post is built, the author is an error item
+		post, isPost := result.(*pub.Post)
+		if !isPost {
+			return vrep.Result{Classes: classes, Err: fmt.Errorf("%s: the enclosing post was not built: %T", describe(c), result)}
+		}
+		failed = false
+		for _, cr := range post.Creators() {
+			if _, f := cr.(*pub.Failure); f {
+				failed = true
+			}
+		}
+		if c.Kind == "none" && failed {
+			return vrep.Result{Classes: classes, Err: fmt.Errorf("harness: fault-free nested fetch fails")}
+		}
+		if c.Kind == "none" {
+			failed = true // nothing to demand
+		}
+	}
 	switch {
 	case must && !failed:
 		return vrep.Result{Classes: classes, Err: fmt.Errorf("%s: the response was cut at byte %d of %d yet an item was built: %T", describe(c), c.At, len(faultedResp), result)}
-	case c.Kind == "none" && failed:
+	case c.Kind == "none" && failed && !(nestedFrom(c.Corpus) >= 0 && c.Hop >= nestedFrom(c.Corpus)):
 		return vrep.Result{Classes: classes, Err: fmt.Errorf("harness: fault-free run of corpus %s fails: %s", c.Corpus, result.(*pub.Failure).Name())}
 	}
 	if may {
